@@ -10,7 +10,7 @@
 (* sessions and exports them) and by the judge (Trace_Codec: events        *)
 (* recorded from the real library must be explained by these actions).     *)
 (***************************************************************************)
-EXTENDS Values, XER
+EXTENDS Values, Variants
 
 CONSTANTS Mod,           \* the module under test (raw, as written)
           ByteExact      \* TRUE: encoders must produce the reference octets (C02)
@@ -59,7 +59,7 @@ OpBuild(slot) == [a |-> "Build", slot |-> slot]
 OpEncode(slot, syn) == [a |-> "Encode", slot |-> slot, syn |-> syn]
 OpDecode(slot, syn) == [a |-> "Decode", slot |-> slot, syn |-> syn]     \* decodes wire[syn]
 OpCompare(s1, s2) == [a |-> "Compare", s1 |-> s1, s2 |-> s2]
-OpDecodeLit(slot, syn, bytes) == [a |-> "DecodeLit", slot |-> slot, syn |-> syn, bytes |-> bytes]  \* one-shot, given octets
+OpDecodeLit(slot, syn, bytes, style) == [a |-> "DecodeLit", slot |-> slot, syn |-> syn, bytes |-> bytes, style |-> style]  \* one-shot, given octets
 OpStartDecode(slot, syn, bytes) == [a |-> "StartDecode", slot |-> slot, syn |-> syn, bytes |-> bytes]
 OpDecodeCall(avail) == [a |-> "DecodeCall", avail |-> avail]   \* decoder called with octets pos+1..avail
 
